@@ -1,9 +1,10 @@
 (* C10 — shared codecs and schema caches are safe for concurrent use.
    Only statements, closed by [exact lemma], with Print Assumptions beneath. *)
 From Coq Require Import String List NArith Bool.
-From J5V.model Require Import Conc ConcKey ConcSites ConcCorr ConcRace ConcStatement ConcState ConcRW ConcHB ConcProbe.
+From J5V.lib Require Import Outcome.
+From J5V.model Require Import Conc ConcKey ConcSites ConcCorr ConcRace ConcStatement ConcState ConcRW ConcHB ConcProbe ConcCodec.
 From J5V.gen Require ConcGen ConcStateGen.
-From J5V.proofs Require Import ConcProofs ConcLeafProofs ConcInvProofs ConcTermProofs ConcMainProofs ConcRetProofs ConcRaceProofs ConcFullProofs ConcKeyProofs ConcRWProofs ConcHBProofs ConcProbeProofs.
+From J5V.proofs Require Import ConcProofs ConcLeafProofs ConcInvProofs ConcTermProofs ConcMainProofs ConcRetProofs ConcRaceProofs ConcFullProofs ConcKeyProofs ConcRWProofs ConcHBProofs ConcProbeProofs ConcCodecProofs.
 Import ListNotations.
 Local Open Scope N_scope.
 
@@ -580,3 +581,45 @@ Theorem C10_probe_is_the_event_trace :
   as_events (probe_tokens probe_nested 9) = probe_event_tokens probe_nested 9.
 Proof. exact probe_is_the_event_trace. Qed.
 Print Assumptions C10_probe_is_the_event_trace.
+
+(* ---- encode / decode on a shared cache: composed with the sequential codec models -------------- *)
+(* encode_call / decode_call (ConcCodec.v) = CodecEnc.encode / CodecDec.decode_bytes applied to the
+   schema environment reachable from the object the call was handed, in the heap AS IT IS WHEN THE WALK
+   RUNS — any later point of any schedule, other goroutines building or rolling back.  For every
+   universe, call list, schedule, continuation, depth, naming, per-descriptor schema function, message
+   and document: the value is the one the same function yields on the type's own unfolding, which is
+   the schema a call alone on a fresh cache returns (second theorem).  The step from the Go walk to
+   "a function of these cells and the input" is the census (C10_lockfree_functions_write_nothing,
+   C10_codec_walk_reads_frozen) and the oracle; query-decode (CodecDecQuery) is the same congruence and
+   is not instantiated here. *)
+Theorem C10_codec_calls_return_solo_results : forall nm denote fmt any orc K k g calls sched t n c later,
+  calls_ok calls -> In (t, n, c) (rets Guarded k g calls sched) ->
+  let h := heap (s_sh (run Guarded k g calls (sched ++ later))) in
+  (forall m, encode_call nm denote fmt any K h c n m = encode_solo nm denote fmt any K g n m) /\
+  (forall doc, decode_call nm denote orc K h c n doc = decode_solo nm denote orc K g n doc).
+Proof. exact codec_calls_are_solo. Qed.
+Print Assumptions C10_codec_calls_return_solo_results.
+
+Theorem C10_solo_schema_is_the_types_unfolding : forall K g n,
+  n <> unsupported -> good g n -> result_solo K g n = ROk (gunfold K g n).
+Proof. exact solo_tree. Qed.
+Print Assumptions C10_solo_schema_is_the_types_unfolding.
+
+(* without the lock the composition gives a different value: on the second refutation witness the encoder
+   model, applied to what thread 1 was handed, panics ("schema/value mismatch": the nested schema is a
+   placeholder) where the call alone returns {"r0":{}} — the nil-dereference panics the lock-free
+   mutations show on the real code *)
+Theorem C10_unguarded_encode_refuted :
+  let st := run Unguarded 3 ex_w2_graph ex_w2_calls ex_w2_sched in
+  rets Unguarded 3 ex_w2_graph ex_w2_calls ex_w2_sched = [(1%nat, 3, 1%nat)] /\
+  encode_call ex_nm ex_denote ex_fmt ex_any 3 (heap (s_sh st)) 1%nat 3 ex_msg = Panic "schema/value mismatch"%string /\
+  encode_solo ex_nm ex_denote ex_fmt ex_any 3 ex_w2_graph 3 ex_msg = Ok [123; 34; 114; 48; 34; 58; 123; 125; 125].
+Proof. exact unguarded_encode_differs. Qed.
+Print Assumptions C10_unguarded_encode_refuted.
+
+Example C10_guarded_encode_example :
+  let sched := [0; 0; 0; 1; 1; 1; 1; 1; 0; 0; 0; 0; 0; 0; 1; 1; 1; 1; 1; 1; 1]%nat in
+  let st := run Guarded 3 ex_w2_graph ex_w2_calls sched in
+  In (1%nat, 3, 2%nat) (rets Guarded 3 ex_w2_graph ex_w2_calls sched) /\
+  encode_call ex_nm ex_denote ex_fmt ex_any 3 (heap (s_sh st)) 2%nat 3 ex_msg = Ok [123; 34; 114; 48; 34; 58; 123; 125; 125].
+Proof. exact guarded_encode_example. Qed.
